@@ -57,13 +57,13 @@ theorem keep_detach (s : St) (e : Ent) (st : Ty) : Keep s (detach s e st) := by
     · rename_i he; subst he; rw [hx]; rfl
     · exact hx
 
-theorem keep_removeComponent (U : Universe) (s : St) (e : Ent) (t : Ty) :
+theorem keep_removeComponent (U : Universe) [U.NoReenter] (s : St) (e : Ent) (t : Ty) :
     Keep s (removeComponent U s e t).1 := by
   rcases removeComponent_spec U s e t with ⟨_, heq⟩ | ⟨st, c, _, _, _, hsame⟩
   · rw [heq]; exact .refl s
   · exact (keep_detach s e st).trans (Keep.of_tables hsame)
 
-theorem keep_removeTypes (U : Universe) (s : St) (e : Ent) (ts : List Ty) :
+theorem keep_removeTypes (U : Universe) [U.NoReenter] (s : St) (e : Ent) (ts : List Ty) :
     Keep s (removeTypes U s e ts).1 := by
   induction ts generalizing s with
   | nil => exact .refl s
@@ -78,7 +78,7 @@ theorem keep_removeTypes (U : Universe) (s : St) (e : Ent) (ts : List Ty) :
       · exact h1.trans (ih s')
       all_goals exact h1
 
-theorem keep_sweep (U : Universe) (s : St) (es : List Ent) : Keep s (sweep U s es).1 := by
+theorem keep_sweep (U : Universe) [U.NoReenter] (s : St) (es : List Ent) : Keep s (sweep U s es).1 := by
   induction es generalizing s with
   | nil => exact .refl s
   | cons e es ih =>
@@ -96,11 +96,11 @@ theorem keep_sweep (U : Universe) (s : St) (es : List Ent) : Keep s (sweep U s e
 
 /-- the callback that calls `delete_entity(x)`: from its return (or its exception) on, `x` is awaiting
 deletion -/
-theorem callCb_marks (U : Universe) (s : St) (o : Obj) (m : String) (e : Entry) (x : Ent)
+theorem callCb_marks (U : Universe) [U.NoReenter] (s : St) (o : Obj) (m : String) (e : Entry) (x : Ent)
     (h : U.reacts o m ((Dict.get? s.calls (o, m)).getD 0) = some x) :
     x ∈ (callCb U s o m e).1.dead := by
   unfold callCb
-  simp only [h]
+  simp only [h, Universe.NoReenter.noReenter]
   split <;> exact (mem_setAdd _ _ _).mpr (.inr rfl)
 
 end Desper.World
